@@ -225,7 +225,17 @@ func genDesc(r *core.Rand) *elfref.Desc {
 	if odd(6) { // executable PROGBITS at address zero (must not become code)
 		n := uint64(4 * r.Range(1, 4))
 		d.Blobs = append(d.Blobs, elfref.Blob{Off: off, Hex: hex.EncodeToString(r.Bytes(int(n)))})
-		d.Secs = append(d.Secs, elfref.Sec{Name: ".zero", Type: elfref.SHTProgbits, Flags: elfref.SHFExec, Addr: 0, Off: off, Size: n})
+		zf := uint64(elfref.SHFExec)
+		if r.Bool() {
+			zf |= elfref.SHFAlloc // what decides is the address, not the flag
+		}
+		d.Secs = append(d.Secs, elfref.Sec{Name: ".zero", Type: elfref.SHTProgbits, Flags: zf, Addr: 0, Off: off, Size: n})
+		off += n
+	}
+	if odd(8) { // executable PROGBITS with an address but without the ALLOC flag (is code)
+		n := uint64(4 * r.Range(1, 4))
+		d.Blobs = append(d.Blobs, elfref.Blob{Off: off, Hex: hex.EncodeToString(r.Bytes(int(n)))})
+		d.Secs = append(d.Secs, elfref.Sec{Name: ".noalloc", Type: elfref.SHTProgbits, Flags: elfref.SHFExec, Addr: addr + 0x4000, Off: off, Size: n})
 		off += n
 	}
 	if odd(6) { // executable NOBITS (must not become code)
